@@ -5,9 +5,12 @@ modelled natives (Model/Ledger/NativeSys.lean).
 
   case <k>                                   -> case <k>
   net <csize> <vcount> <n> <pub0> … <pubn-1> -> ok
+  proto <mtb> <vubi> <mspb>                  -> ok      (protocol configuration: genesis values of the settings)
   genesis | endblock | final                 -> <obs A> | <obs B>
   block <h> <primary>                        -> ok
   tx s=<tok,…> c=<m:i.j.k|-> <kind> <args…> [oog]  -> halt true | halt false | halt | fault | skip  (replica A)
+      the committee setters (policy.setAttributeFee … neo.setGasPerBlock, role.designate) are PREDICTED by the guarded
+      components (Model/Ledger/Guarded.lean) run against the committee replica A's NEO cache holds at this block
   restartB | flushB                          -> ok
   aborted                                    -> aborted
 -/
@@ -16,7 +19,8 @@ import NeoModel.Base.Hex
 import NeoModel.Model.Ledger.NativeSys
 import NeoModel.Model.Ledger.Whitelist
 import NeoModel.Model.Ledger.Components
-open NeoModel NeoModel.Ledger NeoModel.Ledger.Natives NeoModel.Ledger.Components
+import NeoModel.Model.Ledger.Guarded
+open NeoModel NeoModel.Ledger NeoModel.Ledger.Natives NeoModel.Ledger.Components NeoModel.Ledger.Guarded
 
 structure DState where
   cfg : Cfg := { committeeSize := 1, validators := 1, standby := [] }
@@ -33,17 +37,20 @@ structure DState where
   -- cached components (Model/Ledger/Components.lean), replica A and B
   setA : Comp.CNode (List (Nat × Int)) (List (Nat × Int)) := { store := [], cache := [], height := 0 }
   setB : Comp.CNode (List (Nat × Int)) (List (Nat × Int)) := { store := [], cache := [], height := 0 }
-  roleA : Comp.CNode RoleStore RoleCache := { store := [], cache := designate.init [], height := 0 }
-  roleB : Comp.CNode RoleStore RoleCache := { store := [], cache := designate.init [], height := 0 }
+  roleA : Comp.CNode RoleStore RoleCache := { store := [], cache := gdesignate.init [], height := 0 }
+  roleB : Comp.CNode RoleStore RoleCache := { store := [], cache := gdesignate.init [], height := 0 }
   mgA : Comp.CNode MgmtStore (List (Nat × (Int × Nat))) := { store := { contracts := [], nextId := 1 }, cache := [], height := 0 }
   mgB : Comp.CNode MgmtStore (List (Nat × (Int × Nat))) := { store := { contracts := [], nextId := 1 }, cache := [], height := 0 }
-  setTxs : List (CTx SetOp) := []
-  roleTxs : List (CTx RoleOp) := []
+  setTxs : List (CTx (GCall GSetOp)) := []
+  roleTxs : List (CTx (GCall DesOp)) := []
+  gpbTxs : List (CTx (GCall Int)) := []
+  mdTxs : List (CTx (GCall Int)) := []
+  mdA : Comp.CNode Int Unit := { store := 1000000000, cache := (), height := 0 }   -- defaultMinimumDeploymentFee (management.go:816)
+  mdB : Comp.CNode Int Unit := { store := 1000000000, cache := (), height := 0 }
   mgTxs : List (CTx MgmtOp) := []
   mgToks : List String := []      -- tokens of contracts whose deployment was part of a block
-  gpbA : GpbState := { store := [(0, 500000000)], cache := [(0, 500000000)] }   -- genesis record (native_neo.go:345-349)
-  gpbB : GpbState := { store := [(0, 500000000)], cache := [(0, 500000000)] }
-  gpbSets : List Int := []        -- setGasPerBlock values of the HALTed transactions of the block being read
+  gpbA : Comp.CNode (List (Nat × Int)) (List (Nat × Int)) := { store := [(0, 500000000)], cache := [(0, 500000000)], height := 0 }   -- genesis record (native_neo.go:345-349)
+  gpbB : Comp.CNode (List (Nat × Int)) (List (Nat × Int)) := { store := [(0, 500000000)], cache := [(0, 500000000)], height := 0 }
   pending : List Tx := []         -- transactions of the block being read
   height : Nat := 0
 
@@ -111,15 +118,15 @@ def settingsStr (n : Comp.CNode (List (Nat × Int)) (List (Nat × Int))) : Strin
     let st := match aget n.store k with | some v => toString v | none => "nil"
     s!"{nm}:{c}/{st}")
 
-def nodesStr (l : List Nat) : String := joinOr "." ((sortNat l).map toString)
+def nodesStr (s : DState) (l : List Nat) : String := joinOr "." ((sortNat (l.map (indexOfRank s))).map toString)
 
-def rolesStr (n : Comp.CNode RoleStore RoleCache) : String :=
+def rolesStr (s : DState) (n : Comp.CNode RoleStore RoleCache) : String :=
   ",".intercalate (roleList.map fun r =>
     let c := match (n.cache.find? (·.1 == r)).map (·.2) with
-      | some (some (h, ns)) => s!"{h}:{nodesStr ns}"
+      | some (some (h, ns)) => s!"{h}:{nodesStr s ns}"
       | _ => "0:-"
     let st := match maxEntry n.store r with
-      | some (h, ns) => s!"{h}:{nodesStr ns}"
+      | some (h, ns) => s!"{h}:{nodesStr s ns}"
       | none => "0:-"
     let cnt := (n.store.filter fun e => e.1.1 == r).length
     s!"{r}={c}/{st}:{cnt}")
@@ -135,28 +142,57 @@ def mgmtStr (s : DState) (n : Comp.CNode MgmtStore (List (Nat × (Int × Nat))))
     s!"{t}={f (aget n.cache id)}/{f (aget n.store.contracts id)}"
   s!"{joinOr "," ents} next={n.store.nextId}"
 
-/-- the component calls of a transaction line -/
-def compOpsOf (s : DState) (ws : List String) : DState × Option SetOp × Option RoleOp × Option MgmtOp :=
+def parseCommittee (s : DState) (t : String) : Option (Nat × List Key) :=
+  -- "c=-" or "c=m:i.j.k"
+  let v := dropS t 2
+  if v == "-" then none else
+  match v.splitOn ":" with
+  | [m, ks] => some (m.toNat?.getD 0, (ks.splitOn ".").map fun i => rankOf s (i.toNat?.getD 0))
+  | _ => none
+
+/-- the calls of a transaction line that go to the components -/
+structure CompOps where
+  set : Option (GCall GSetOp) := none
+  role : Option (GCall DesOp) := none
+  gpb : Option (GCall Int) := none
+  md : Option (GCall Int) := none
+  mgmt : Option MgmtOp := none
+
+def compOpsOf (s : DState) (ws : List String) : DState × CompOps :=
   match ws with
-  | _ :: _ :: "policy.setAttributeFee" :: t :: v :: _ => (s, some (.set (t.toNat?.getD 0) (parseInt v)), none, none)
-  | _ :: _ :: "policy.setMaxValidUntilBlockIncrement" :: v :: _ => (s, some (.set 100 (parseInt v)), none, none)
-  | _ :: _ :: "policy.setMaxTraceableBlocks" :: v :: _ => (s, some (.set 101 (parseInt v)), none, none)
-  | _ :: _ :: "policy.setMillisecondsPerBlock" :: v :: _ => (s, some (.set 102 (parseInt v)), none, none)
-  | _ :: _ :: "notary.setMaxNotValidBeforeDelta" :: v :: _ => (s, some (.set 103 (parseInt v)), none, none)
-  | _ :: _ :: "oracle.setPrice" :: v :: _ => (s, some (.set 104 (parseInt v)), none, none)
-  | _ :: _ :: "neo.setRegisterPrice" :: v :: _ => (s, some (.set 105 (parseInt v)), none, none)
-  | _ :: _ :: "role.designate" :: r :: ns :: _ =>
-    (s, none, some (.designate (r.toNat?.getD 0) ((ns.splitOn ".").map fun x => x.toNat?.getD 0)), none)
-  | _ :: _ :: "kv.deploy" :: c :: _ =>
-    let (s, a) := acctOf s c
-    ({ s with mgToks := if s.mgToks.contains c then s.mgToks else c :: s.mgToks }, none, none, some (.deploy (acctId a)))
-  | _ :: _ :: "kv.update" :: c :: _ =>
-    let (s, a) := acctOf s c
-    (s, none, none, some (.update (acctId a)))
-  | _ :: _ :: "kv.destroy" :: c :: _ =>
-    let (s, a) := acctOf s c
-    (s, none, none, some (.destroy (acctId a)))
-  | _ => (s, none, none, none)
+  | _ :: cm :: kind :: args =>
+    let w := parseCommittee s cm
+    let gs (o : GSetOp) : DState × CompOps := (s, { set := some ⟨o, w⟩ })
+    match kind, args with
+    | "policy.setAttributeFee", t :: v :: _ => gs (.attrFee (parseInt t) (parseInt v))
+    | "policy.setMaxValidUntilBlockIncrement", v :: _ => gs (.maxVUB (parseInt v))
+    | "policy.setMaxTraceableBlocks", v :: _ => gs (.maxTraceable (parseInt v))
+    | "policy.setMillisecondsPerBlock", v :: _ => gs (.msPerBlock (parseInt v))
+    | "notary.setMaxNotValidBeforeDelta", v :: _ => gs (.nvbDelta (parseInt v))
+    | "oracle.setPrice", v :: _ => gs (.oraclePrice (parseInt v))
+    | "neo.setRegisterPrice", v :: _ => gs (.registerPrice (parseInt v))
+    | "neo.setGasPerBlock", v :: _ => (s, { gpb := some ⟨parseInt v, w⟩ })
+    | "management.setMinimumDeploymentFee", v :: _ => (s, { md := some ⟨parseInt v, w⟩ })
+    | "role.designate", r :: ns :: _ =>
+      let nodes := if ns == "-" then [] else (ns.splitOn ".").map fun x => rankOf s (x.toNat?.getD 0)
+      (s, { role := some ⟨⟨parseInt r, nodes⟩, w⟩ })
+    | "kv.deploy", c :: _ =>
+      let (s, a) := acctOf s c
+      ({ s with mgToks := if s.mgToks.contains c then s.mgToks else c :: s.mgToks }, { mgmt := some (.deploy (acctId a)) })
+    | "kv.update", c :: _ =>
+      let (s, a) := acctOf s c
+      (s, { mgmt := some (.update (acctId a)) })
+    | "kv.destroy", c :: _ =>
+      let (s, a) := acctOf s c
+      (s, { mgmt := some (.destroy (acctId a)) })
+    | _, _ => (s, {})
+  | _ => (s, {})
+
+/-- the environment replica `n`'s natives part gives to the transactions of its next block -/
+def envOfNode (s : DState) (n : NNode) : Env :=
+  match n.read () with
+  | some st => envOf s.cfg st n.cache (n.height + 1)
+  | none => { committee := [], validators := s.cfg.validators }
 
 def obsNode (s : DState) (n : NNode) (wl : Whitelist.State) (comps : String) : String :=
   match n.read () with
@@ -174,17 +210,18 @@ def obsNode (s : DState) (n : NNode) (wl : Whitelist.State) (comps : String) : S
       s!"{tokOf s a}:{b.balance}:{v}")
     s!"h={n.height} wlc={wlStr s wl.cache} wls={wlStr s wl.store} {comps} fpb={g.feePerByte} eff={g.execFeeFactor} sp={g.storagePrice * 10000} blocked={joinOr "," blocked} cand={joinOr "," cand} vc={st.votersCount} cmt={joinOr "," cmt} ccmt={idxList s g.committee} nv={idxList s g.nextValidators} nenv={idxList s g.newEpochValidators} neo={joinOr "," neo}"
 
-def gpbStr (g : GpbState) (next : Nat) : String :=
+def gpbStr (g : Comp.CNode (List (Nat × Int)) (List (Nat × Int))) (next : Nat) : String :=
   let c := match gpbLookup g.cache next with | some v => toString v | none => "?"
   let recs := (g.store.foldr insertRec []).map fun (i, v) => s!"{i}:{v}"
   s!"{c}/{joinOr ";" recs}"
 
 def compsStr (s : DState) (sn : Comp.CNode (List (Nat × Int)) (List (Nat × Int))) (rn : Comp.CNode RoleStore RoleCache)
-    (mn : Comp.CNode MgmtStore (List (Nat × (Int × Nat)))) (g : GpbState) (height : Nat) : String :=
-  s!"set={settingsStr sn} roles={rolesStr rn} mgmt={mgmtStr s mn} gpb={gpbStr g (height + 1)}"
+    (mn : Comp.CNode MgmtStore (List (Nat × (Int × Nat)))) (g : Comp.CNode (List (Nat × Int)) (List (Nat × Int)))
+    (md : Comp.CNode Int Unit) (height : Nat) : String :=
+  s!"set={settingsStr sn} roles={rolesStr s rn} mgmt={mgmtStr s mn} mdf={minDeployFee md.store}/{md.store} gpb={gpbStr g (height + 1)}"
 
 def obsBoth (s : DState) : String :=
-  s!"{obsNode s s.a s.wlA (compsStr s s.setA s.roleA s.mgA s.gpbA s.a.height)} | {obsNode s s.b s.wlB (compsStr s s.setB s.roleB s.mgB s.gpbB s.b.height)}"
+  s!"{obsNode s s.a s.wlA (compsStr s s.setA s.roleA s.mgA s.gpbA s.mdA s.a.height)} | {obsNode s s.b s.wlB (compsStr s s.setB s.roleB s.mgB s.gpbB s.mdB s.b.height)}"
 
 def resStr : Res → String
   | .haltTrue => "halt true"
@@ -197,14 +234,6 @@ def resStr : Res → String
 def ranks (pubs : List String) : List Nat :=
   let xs := pubs.map fun p => dropS p 2
   xs.map fun x => (xs.filter fun y => y < x).length
-
-def parseCommittee (s : DState) (t : String) : Option (Nat × List Key) :=
-  -- "c=-" or "c=m:i.j.k"
-  let v := dropS t 2
-  if v == "-" then none else
-  match v.splitOn ":" with
-  | [m, ks] => some (m.toNat?.getD 0, (ks.splitOn ".").map fun i => rankOf s (i.toNat?.getD 0))
-  | _ => none
 
 def parseTx (s : DState) (ws : List String) : DState × Option Tx :=
   match ws with
@@ -295,18 +324,12 @@ def dstep (s : DState) (ws : List String) : DState × String :=
     let cfg : Cfg := { committeeSize := csz, validators := vc.toNat?.getD 1, standby := rk.take csz }
     let g := genesisNode cfg (Acct.other 0)
     ({ s with cfg := cfg, nkeys := n.toNat?.getD 0, rank := rk, a := g, b := g }, "ok")
-  | "init-settings" :: ents =>
-    let st := ents.foldl (fun (acc : List (Nat × Int)) e =>
-      match e.splitOn ":" with
-      | [nm, vals] =>
-        match settingNames.find? (·.1 == nm), vals.splitOn "/" with
-        | some (_, k), [_, stored] => if stored == "nil" then acc else aput acc k (parseInt stored)
-        | _, _ => acc
-      | _ => acc) []
-    let n : Comp.CNode (List (Nat × Int)) (List (Nat × Int)) := { store := st, cache := settings.init st, height := 0 }
+  | ["proto", mtb, vubi, mspb] =>
+    let st := genesisSettings (parseInt mtb) (parseInt vubi) (parseInt mspb)
+    let n : Comp.CNode (List (Nat × Int)) (List (Nat × Int)) := { store := st, cache := gsettings.init st, height := 0 }
     ({ s with setA := n, setB := n }, "ok")
   | ["genesis"] => (s, obsBoth s)
-  | ["block", h, _] => ({ s with pending := [], wlPending := [], setTxs := [], roleTxs := [], mgTxs := [], gpbSets := [], height := h.toNat?.getD 0 }, "ok")
+  | ["block", h, _] => ({ s with pending := [], wlPending := [], setTxs := [], roleTxs := [], mgTxs := [], gpbTxs := [], mdTxs := [], height := h.toNat?.getD 0 }, "ok")
   | "tx" :: rest =>
     match parseTx s rest with
     | (s, none) => (s, "bad-op")
@@ -333,30 +356,59 @@ def dstep (s : DState) (ws : List String) : DState × String :=
       -- whitelist panic turns a committee-gated no-op into a fault, which has no modelled effect either
       -- cached components: one transaction per line; the outcome of calls the main model does not predict
       -- ("skip") is taken from the real result noted on the line
-      let haltedC := if r == "skip" then rest.getLast? == some "=>halt" else r.startsWith "halt"
-      let (s, so, ro, mo) := compOpsOf s rest
-      let s := match so with | some o => { s with setTxs := s.setTxs ++ [({ ops := [o], halts := haltedC } : CTx SetOp)] } | none => s
-      let s := match ro with | some o => { s with roleTxs := s.roleTxs ++ [({ ops := [o], halts := haltedC } : CTx RoleOp)] } | none => s
-      let s := match rest with
-        | _ :: _ :: "neo.setGasPerBlock" :: v :: _ => if haltedC then { s with gpbSets := s.gpbSets ++ [parseInt v] } else s
-        | _ => s
-      let s := match mo with | some o => { s with mgTxs := s.mgTxs ++ [({ ops := [o], halts := haltedC } : CTx MgmtOp)] } | none => s
+      let (s, co) := compOpsOf s rest
+      let oog := rest.getLast? == some "oog"
+      -- guarded components: the outcome is PREDICTED by running the block so far plus this transaction on replica A's
+      -- component state, in the environment replica A's natives part supplies (cached committee after OnPersist)
+      let e := envOfNode s s.a
+      let hC := s.setA.height + 1
+      let predict (ok : Option Bool) : String := if ok == some true then "halt" else "fault"
+      let (s, r) := match co.set with
+        | some o =>
+          let tx : CTx (GCall GSetOp) := { ops := [o], halts := !oog }
+          let txs' := s.setTxs ++ [tx]
+          ({ s with setTxs := txs' }, predict ((gsettings.fix e).runBlockR s.setA.store s.setA.cache hC txs').getLast?)
+        | none => (s, r)
+      let (s, r) := match co.role with
+        | some o =>
+          let tx : CTx (GCall DesOp) := { ops := [o], halts := !oog }
+          let txs' := s.roleTxs ++ [tx]
+          ({ s with roleTxs := txs' }, predict ((gdesignate.fix e).runBlockR s.roleA.store s.roleA.cache hC txs').getLast?)
+        | none => (s, r)
+      let (s, r) := match co.gpb with
+        | some o =>
+          let tx : CTx (GCall Int) := { ops := [o], halts := !oog }
+          let txs' := s.gpbTxs ++ [tx]
+          ({ s with gpbTxs := txs' }, predict ((gpb.fix e).runBlockR s.gpbA.store s.gpbA.cache hC txs').getLast?)
+        | none => (s, r)
+      let (s, r) := match co.md with
+        | some o =>
+          let tx : CTx (GCall Int) := { ops := [o], halts := !oog }
+          let txs' := s.mdTxs ++ [tx]
+          ({ s with mdTxs := txs' }, predict ((gmindeploy.fix e).runBlockR s.mdA.store s.mdA.cache hC txs').getLast?)
+        | none => (s, r)
+      -- ContractManagement: the outcome of deploy / update / destroy is the main model's prediction
+      let s := match co.mgmt with | some o => { s with mgTxs := s.mgTxs ++ [({ ops := [o], halts := r.startsWith "halt" } : CTx MgmtOp)] } | none => s
       ({ s with pending := txs, wlPending := s.wlPending ++ [wo] }, r)
   | ["endblock"] =>
+    -- the environments are those of the caches BEFORE the block (OnPersist of this block is part of envOf)
+    let eA := envOfNode s s.a
+    let eB := envOfNode s s.b
     let s := stepBoth s (.addBlock s.pending)
     let wops := s.wlPending.filterMap id
     let s := { s with a := step (nativeSys s.cfg) s.a .flush, pending := [], wlPending := [],
                       wlA := wlApply s.wlA wops, wlB := wlApply s.wlB wops,
-                      setA := settings.cstep s.setA (.block s.setTxs), setB := settings.cstep s.setB (.block s.setTxs),
-                      roleA := designate.cstep s.roleA (.block s.roleTxs), roleB := designate.cstep s.roleB (.block s.roleTxs),
+                      setA := gsettings.estep s.setA (.block eA s.setTxs), setB := gsettings.estep s.setB (.block eB s.setTxs),
+                      roleA := gdesignate.estep s.roleA (.block eA s.roleTxs), roleB := gdesignate.estep s.roleB (.block eB s.roleTxs),
+                      gpbA := gpb.estep s.gpbA (.block eA s.gpbTxs), gpbB := gpb.estep s.gpbB (.block eB s.gpbTxs),
+                      mdA := gmindeploy.estep s.mdA (.block eA s.mdTxs), mdB := gmindeploy.estep s.mdB (.block eB s.mdTxs),
                       mgA := management.cstep s.mgA (.block s.mgTxs), mgB := management.cstep s.mgB (.block s.mgTxs),
-                      setTxs := [], roleTxs := [], mgTxs := [], gpbSets := [],
-                      gpbA := s.gpbSets.foldl (fun g v => gpbSet g s.height v) s.gpbA,
-                      gpbB := s.gpbSets.foldl (fun g v => gpbSet g s.height v) s.gpbB }
+                      setTxs := [], roleTxs := [], mgTxs := [], gpbTxs := [], mdTxs := [] }
     (s, obsBoth s)
   | ["restartB"] => ({ s with b := step (nativeSys s.cfg) s.b .restart, wlB := wlApply s.wlB [.restart],
-                               setB := settings.cstep s.setB .restart, roleB := designate.cstep s.roleB .restart,
-                               mgB := management.cstep s.mgB .restart, gpbB := gpbRestart s.gpbB }, "ok")
+                               setB := gsettings.estep s.setB .restart, roleB := gdesignate.estep s.roleB .restart,
+                               mgB := management.cstep s.mgB .restart, gpbB := gpb.estep s.gpbB .restart,
+                               mdB := gmindeploy.estep s.mdB .restart }, "ok")
   | ["flushB"] => ({ s with b := step (nativeSys s.cfg) s.b .flush }, "ok")
   | ["final"] => (s, obsBoth s)
   | ["aborted"] => (s, "aborted")
